@@ -21,7 +21,8 @@ CONSTANTS Pods, Reqs, Slots, Addrs, Cap, Batch, MaxIdle,
           FixKeep,         \* D14: a cancelled repeated ADD keeps the address the pod already holds
           FixDangling,     \* D17: canDispose counts waiters whose job was popped (danging)
           FixABA,          \* D12: an address re-assigned by the cloud while a pod still holds it keeps its owner
-          DriftOn          \* environment: addresses may be removed remotely (and the periodic sync runs)
+          DriftOn,         \* environment: addresses may be removed remotely (and the periodic sync runs)
+          Healthy          \* the cloud never fails (used for the liveness question)
 
 NoIP == [owner |-> 0, st |-> "none", primary |-> FALSE]
 
@@ -186,7 +187,7 @@ PopJobs(s, n) ==   \* popNIPv4Jobs: the first n jobs move to danging (order abst
 
 FactoryEnd(s) ==
     /\ fop[s].k \in {"create", "assign"}
-    /\ \E ok \in BOOLEAN :
+    /\ \E ok \in (IF Healthy THEN {TRUE} ELSE BOOLEAN) :
          IF ok /\ Cardinality(Addrs \ UsedEverywhere) >= fop[s].n
          THEN \E A \in SUBSET (Addrs \ UsedEverywhere) :
                 /\ Cardinality(A) = fop[s].n
@@ -260,6 +261,13 @@ Next == \/ \E r \in Reqs, p \in Pods : Call(r, p)
         \/ \E s \in Slots : FactoryBegin(s) \/ FactoryEnd(s) \/ Dispose(s) \/ DisposeBegin(s) \/ DisposeEnd(s) \/ RemoteRemove(s) \/ Sync(s)
 
 Spec == Init /\ [][Next]_vars
+
+(* Liveness (beyond the listed properties): with a healthy cloud and no cancellation, is every queued request served?  *)
+(* Progress = everything except the caller's own Cancel / new calls / releases and the environment.                    *)
+Progress == \/ \E r \in Reqs : CommitDirect(r) \/ WorkerStep(r) \/ MgrRecv(r) \/ AbandonedFinish(r) \/ Return(r)
+            \/ \E s \in Slots : FactoryBegin(s) \/ FactoryEnd(s) \/ DisposeBegin(s) \/ DisposeEnd(s)
+LiveSpec == Init /\ [][Next]_vars /\ WF_vars(Progress)
+NoStuckWaiter == \A r \in Reqs : (req[r].pc = "queued" /\ ~req[r].cancelled) ~> (req[r].pc # "queued" \/ req[r].cancelled)
 
 -----------------------------------------------------------------------------
 (* C01: what the daemon was told two pods hold never coincides *)
